@@ -469,3 +469,12 @@ def m_dynamic_cast(s, av):
             stack.append((b, off + boff, pub and bpub))
     if len(found) != 1: return 0
     return (most + found.pop()) & M64
+
+# ---------------------------------------------------------------- libstdc++ hash-table growth policy (out of line in libstdc++.so)
+# Contract-equivalent models for std::unordered_map/set: the table never grows (every bucket count is a valid one; only the
+# complexity differs), so all elements live in the initial bucket array.
+@model('_ZNKSt8__detail20_Prime_rehash_policy14_M_need_rehashEmmm')
+def m_need_rehash(s, av): return ('agg', [0, 0])
+@model('_ZNKSt8__detail20_Prime_rehash_policy11_M_next_bktEm')
+def m_next_bkt(s, av):
+    n = s.concretize(av[1], 'bucket hint'); return n if n > 0 else 1
